@@ -80,6 +80,7 @@ class Acc(object):
         self.samples = []
         self.caps = []
         self.notes = {}
+        self.slow = []
 
     def expired(self):
         return self.deadline is not None and time.time() > self.deadline
@@ -88,8 +89,10 @@ class Acc(object):
         if len(self.samples) < limit:
             self.samples.append(case)
 
-    def violation(self, symptom, case, expected=None, observed=None, what=None):
-        """``case`` must be the *minimised* case; key = (symptom, case)."""
+    def violation(self, symptom, case, expected=None, observed=None, what=None, extra=None):
+        """``case`` must be the *minimised* case; key = (symptom, case).  ``extra`` (a dict) is
+        stored with the record and merged into the case handed to replay(), but is not part of the
+        key: used for call-site keyed findings that carry one example."""
         self.violation_count += 1
         key = short_hash([symptom, case])
         if key in self.violations:
@@ -106,6 +109,7 @@ class Acc(object):
             expected=expected,
             observed=observed,
             what=what or symptom,
+            extra=extra or {},
             count=1,
         )
         return key
@@ -133,6 +137,7 @@ class Acc(object):
                 self.samples.append(s)
         for c in other.caps:
             self.cap(c)
+        self.slow = sorted(self.slow + other.slow, reverse=True)[:5]
         for k, v in other.notes.items():
             self.notes.setdefault(k, v)
 
@@ -204,8 +209,10 @@ def _run_one(shard):
         acc.cap("wall budget reached; shard skipped")
         acc.counters["shards_skipped"] += 1
         return acc
+    t0 = time.time()
     try:
         _PROP.run_shard(shard, _TIER, acc)
+        acc.slow = [(round(time.time() - t0, 2), repr(shard)[:80])]
     except WatchdogTimeout:
         acc.cap("shard aborted by watchdog: %r" % (shard,))
     except Exception:
@@ -291,6 +298,7 @@ def run_check(modname, tier, seed, quiet=False):
         counters=dict(total.counters),
         caps=total.caps,
         shards=nshards,
+        slowest_shards=total.slow,
         technique=prop.technique,
         known_findings_matched=sorted(v["key"] for v in matched),
         violating_executions=total.violation_count,
